@@ -195,6 +195,9 @@ func runCheck(e *env, p *propSpec, tier string) int {
 		totalW += s.Weight
 	}
 	next := func() []rt.Params {
+		if stop {
+			return nil
+		}
 		if len(requeue) > 0 {
 			j := requeue[0]
 			requeue = requeue[1:]
@@ -244,6 +247,9 @@ func runCheck(e *env, p *propSpec, tier string) int {
 				what := "crashed"
 				if o.timedOut {
 					what = "timed out (watchdog)"
+				}
+				if os.Getenv("VERIF_KEEP_GOING") == "" {
+					stop = true // decided by the re-run of the suspect below: a violation or trouble
 				}
 				a.suspects = append(a.suspects, o.missing[0])
 				a.suspectLogs = append(a.suspectLogs, fmt.Sprintf("worker %s at scenario=%s seed=%d:\n%s", what, o.missing[0].Scenario, o.missing[0].Seed, tail(o.log, 2500)))
@@ -506,6 +512,10 @@ func loadAndRun(e *env, pth string) (*replayDoc, *rt.Result, batchOutcome) {
 func replayFile(e *env, pth string) int {
 	rf, r, o := loadAndRun(e, pth)
 	if r == nil {
+		if clause, site, detail, ok := stallKind(o); ok && clause == rf.Clause {
+			fmt.Printf("VIOLATION property=%s replay=%s\n  reproduced clause=%s site=%s\n  %s\n", rf.Property, pth, clause, site, detail)
+			return 1
+		}
 		if (o.crashed || o.timedOut) && rf.Clause == "C14.crash" {
 			fmt.Printf("VIOLATION property=%s replay=%s\n  reproduced: the process died again\n%s\n", rf.Property, pth, trimLines(firstFatal(o.log), 20))
 			return 1
